@@ -69,15 +69,18 @@ class DiskSink(Sink[Union[str,Sequence[str]]]):
         self._file     = None
         self._mode     = mode
         self._batch    = batch
+        self._reopen   = False
 
     def __enter__(self) -> 'DiskSink':
         self._count += 1
 
         if self._file is None:
+            #when we re-open the file for the next batch of a write it is to add to what the earlier batches wrote
+            mode = self._mode.replace('w','a').replace('x','a') if self._reopen else self._mode
             if ".gz" in self._filename:
-                self._file = gzip.open(self._filename, f"{self._mode}b", compresslevel=6)
+                self._file = gzip.open(self._filename, f"{mode}b", compresslevel=6)
             else:
-                self._file = open(self._filename, f"{self._mode}b")
+                self._file = open(self._filename, f"{mode}b")
 
         return self
 
@@ -94,12 +97,16 @@ class DiskSink(Sink[Union[str,Sequence[str]]]):
         lines = iter(lines)
         batch = None
 
-        while self._unfinished(batch):
-            batch = self._get_batch(lines)
-            with self:
-                for line in batch:
-                    self._file.write((line + '\n').encode('utf-8'))
-                    self._file.flush()
+        try:
+            while self._unfinished(batch):
+                batch = self._get_batch(lines)
+                with self:
+                    for line in batch:
+                        self._file.write((line + '\n').encode('utf-8'))
+                        self._file.flush()
+                self._reopen = True
+        finally:
+            self._reopen = False
 
     def _get_batch(self, lines: Iterable[str]) -> Iterable[str]:
         batch = islice(lines,self._batch)
